@@ -500,6 +500,48 @@ func VF_C13_cross_collisions() {
 	vfReach("C13_cross_collisions")
 }
 
+func init() { vfRegister("VF_C02_call_yaml", VF_C02_call_yaml) }
+
+// VF_C02_call_yaml: a call written [method], [method, args] or
+// [method, args, wither] decodes into exactly that: the method, the argument
+// list as written (also when it is empty) and the wither flag as written.
+func VF_C02_call_yaml() {
+	m := vfStr("method", 3)
+	var args []interface{}
+	na := vfChoice("nargs", 3)
+	for i := 0; i < na; i++ {
+		args = append(args, vfStr("arg", 2))
+	}
+	wither := vfBool("wither")
+	var z []interface{}
+	shape := vfChoice("shape", 3)
+	switch shape {
+	case 0:
+		z = []interface{}{m}
+	case 1:
+		z = []interface{}{m, append([]interface{}{}, args...)}
+	case 2:
+		z = []interface{}{m, append([]interface{}{}, args...), wither}
+	}
+	var c Call
+	err := c.UnmarshalYAML(func(p interface{}) error {
+		*(p.(*[]interface{})) = z
+		return nil
+	})
+	vfAssert(err == nil, "the three documented shapes of a call decode")
+	vfAssert(c.Method == m, "the method as written")
+	if shape >= 1 {
+		vfAssert(len(c.Args) == na, "the argument list as written")
+		for i := 0; i < na && i < len(c.Args); i++ {
+			vfAssert(c.Args[i] == args[i], "each argument as written")
+		}
+	} else {
+		vfAssert(len(c.Args) == 0, "no argument list, no arguments")
+	}
+	vfAssert(c.Immutable == (shape == 2 && wither), "the wither flag as written (false when left out), whatever the arguments")
+	vfReach("C02_call_yaml")
+}
+
 func init() { vfRegister("VF_C04_tag_yaml", VF_C04_tag_yaml) }
 
 // VF_C04_tag_yaml: a tag is a string (priority 0) or a mapping with a string
